@@ -215,6 +215,11 @@ Section RunCases.
     | Ok r => SL [SY "combine"; SL (SY "ok" :: e_plain r ++ [eF F (chi_square_dof acc (map p_main rs))])]
     | UB _ => SL [SY "combine"; SL [SY "ub"]]
     end.
+  Definition e_maxdiff (c : anychk) : sx :=
+    match c with
+    | CM c => SL (SY "maxdiff" :: map (fun r => eRes (fun x => [eF F x]) (pairs_max (m_adj r))) (b_results (mc_base c)))
+    | _ => SL [SY "maxdiff"]
+    end.
   Definition chk_mains (c : anychk) : list (mcres K) :=
     match c with
     | CP c => map p_main (b_results c)
@@ -369,6 +374,7 @@ Section RunCases.
         else [bad]
       | SL [SY o] =>
         if String.eqb o "dump" then SL [SY "dump"; e_chk c] :: do_ops rs ops' c idx
+        else if String.eqb o "maxdiff" then e_maxdiff c :: do_ops rs ops' c idx
         else if String.eqb o "text" then SL [SY "text"; eRes (fun t => map e_tok t) (chk_text c)] :: do_ops rs ops' c idx
         else if String.eqb o "reload" then
           match chk_reload c with
